@@ -123,6 +123,8 @@ SPECS = {
     'literal': (dict(unpivot_fields=[{'name': 'x1', 'keys': {'k': 'one'}}, {'name': 'x2', 'keys': {'k': 'two'}}]), True),
     'literal-reversed': (dict(unpivot_fields=[{'name': 'x2', 'keys': {'k': 'two'}}, {'name': 'x1', 'keys': {'k': 'one'}}]), True),
     'backref': (dict(unpivot_fields=[{'name': 'x([0-9])', 'keys': {'k': r'n\1'}}]), True),
+    'hetero-keys': (dict(unpivot_fields=[{'name': 'x1', 'keys': {'k': 'one', 'n': 5}}, {'name': 'x2', 'keys': {'k': 'two'}},
+                                         {'name': 'y', 'keys': {'n': 9}}]), True),
     'named-group': (dict(unpivot_fields=[{'name': 'x(?P<n>[0-9])', 'keys': {'k': r'n\g<n>'}}]), True),
     'numbered-g': (dict(unpivot_fields=[{'name': 'x([0-9])', 'keys': {'k': r'\g<1>!'}}]), True),
     'overlap': (dict(unpivot_fields=[{'name': 'x1', 'keys': {'k': 'first'}}, {'name': 'x.', 'keys': {'k': 'rest'}}]), True),
@@ -143,7 +145,7 @@ def check_unpivot(case):
     fl = [(f, 'integer' if f == 'id' else 'string') for f in fields]
     st = mkstate([('other', fl, other), ('t', fl, copy.deepcopy(rows))])
     extra_keys = [{'name': 'k', 'type': 'string'}]
-    if case['spec'] == 'constant':
+    if case['spec'] in ('constant', 'hetero-keys'):
         extra_keys.append({'name': 'n', 'type': 'integer'})
     label = 'unpivot(%s, regex=%s) on fields %r x %d rows' % (case['spec'], regex, fields, case['nrows'])
     # model
